@@ -84,6 +84,12 @@ func init() {
 				}
 				return ""
 			}}, "jsr", pairs)
+		// "same Allow header": also the one the OPTIONS filter computes (Container.computeAllowedMethods)
+		for _, router := range []string{"curly", "jsr"} {
+			if err := allow.CheckSlash(run, router, n/2, 12); err != nil {
+				return err
+			}
+		}
 		run.Extra["skipped_tables_F11"] = routing.SkippedBuild
 		return nil
 	}
@@ -241,6 +247,13 @@ func init() {
 		}
 		if err := allow.Check(run, "jsr", n, 8); err != nil {
 			return err
+		}
+		// the same on containers with a past (a WebService added, traffic, removed again): what the
+		// filter lists must follow the registration state like routing does
+		for _, router := range []string{"curly", "jsr"} {
+			if err := allow.CheckHistory(run, router, n/2, 6); err != nil {
+				return err
+			}
 		}
 		if allow.WitnessF14() {
 			run.KnownHits["F14"]++
